@@ -1,4 +1,5 @@
 import Proofs.C03.Batch
+import Proofs.C03.Codec
 /-
 C03 helper: `verify_` answers true exactly when BIP340's verification EQUATION holds in the group:
 `s•G = R + e•P` with `R = lift_x(r)`, `P = lift_x(x_Q)`, `e` the challenge — the group-level reading of T2
